@@ -41,6 +41,19 @@ let handle (i : string list) (o : string list) =
     if not p then verdict_pfail "P_C07_wire_lengths"
     else if impl <> model then verdict_diff (String.concat "," (List.map hex_of_n model))
     else verdict_ok (N.leb two n)
+  | ["Z"; b; _; e] ->
+    (* content-encoded object: the blocks on the wire partition the transfer length the sender announced *)
+    let b = h b and e = h e in
+    (match o with
+     | tl :: lens ->
+       let l = h tl in
+       let (((al, as_), nal), n) = block_partitioning b l e in
+       let model = sender_slices (nat_of_int (int_of_n n)) al as_ nal e l N0 N0 in
+       let impl = List.map h lens in
+       if not (p_C07_wire_lengths b l e impl) then verdict_pfail "P_C07_wire_lengths(transfer-length)"
+       else if impl <> model then verdict_diff (String.concat "," (List.map hex_of_n model))
+       else verdict_ok (N.leb two n)
+     | _ -> failwith "bad Z line")
   | [("R" | "Q"); b; l; e] ->
     let b = h b and l = h l and e = h e in
     let n = nblocks b l e in
